@@ -54,11 +54,21 @@ type waitReadCloser struct {
 	io.ReadCloser
 	wait     chan struct{}
 	waitOnce sync.Once
+
+	// first error (usually io.EOF) returned by the body. Closing wait lets the
+	// upload handler return, after which net/http closes the body, so the body
+	// must not be read again; further reads keep reporting this error
+	err error
 }
 
 func (w *waitReadCloser) Read(p []byte) (int, error) {
+	if w.err != nil {
+		return 0, w.err
+	}
+
 	n, err := w.ReadCloser.Read(p)
 	if err != nil {
+		w.err = err
 		w.waitOnce.Do(func() { close(w.wait) })
 	}
 	return n, err
